@@ -8,13 +8,9 @@ git -C /repo apply "$PWD/$DIR/patch.diff" || { echo "patch does not apply"; exit
 OUT=$(mktemp -d /tmp/seed_out.XXXX)
 for c in "$@"; do
   for seed in ${SEEDS:-0}; do
-    VERIF_SEED=$seed VERIF_OUT=$OUT VERIF_JOBS=${VERIF_JOBS:-10} ./check $c 2>&1 | grep "^$c: \(VIOL\|held\|viol\)\|^KNOWN" | cut -c1-400 | sed "s/^/[seed $seed] /"
+    VERIF_SEED=$seed VERIF_OUT=$OUT VERIF_JOBS=${VERIF_JOBS:-14} ./check $c 2>&1 | grep "^$c: \(VIOL\|held\|viol\)\|^KNOWN" | cut -c1-400 | sed "s/^/[seed $seed] /"
   done
 done
-DEMO=$(ls $DIR/demo*.py | head -1)
-(cd /repo && PYTHONPATH=/repo timeout 900 /venv/bin/python /verif/$DEMO > $OUT/demo_with.log 2>&1; echo "demo with change: exit $?")
 git -C /repo checkout -- .
-git -C /repo clean -fdq -e '*.fwd' -e '*.rev' -e '*.conf' -e '*.lock' avocado_i2n 2>/dev/null
-(cd /repo && PYTHONPATH=/repo timeout 900 /venv/bin/python /verif/$DEMO > $OUT/demo_without.log 2>&1; echo "demo without change: exit $?")
 git -C /repo status --short | grep -v '^??'
 rm -rf $OUT
